@@ -240,6 +240,11 @@ func (e *SpecEnv) eval(ex Expr) SVal {
 			if pt != nil {
 				et = pt.Elem()
 			}
+			if p.Obj == nil && p.Slice == nil && len(p.Alts) == 0 && et != nil {
+				// the nil pointer: the specification reads an arbitrary value (such reads sit under `p != nil ==>`)
+				e.x.specNilDeref++
+				return SVal{V: e.x.freshVal(fmt.Sprintf("nilderef%d", e.x.specNilDeref), et), T: et}
+			}
 			return SVal{V: e.x.readPtr(e.st(), p), T: et}
 		}
 	case *EBinary:
@@ -468,7 +473,9 @@ func (e *SpecEnv) evalQuant(n *EQuant) SVal {
 	bv := o.BoundVar(n.Var, o.IdxSort())
 	sub := e.clone()
 	sub.vars[n.Var] = SVal{V: bv, T: typInt}
+	e.x.quantDepth++
 	body := sub.evalBool(n.Body)
+	e.x.quantDepth--
 	rng := o.And(o.IdxLe(loT, bv), o.IdxLt(bv, hiT))
 	if n.Kind == "forall" {
 		return SVal{V: o.Forall([]*Term{bv}, o.Implies(rng, body)), T: typBool}
@@ -823,7 +830,7 @@ func (e *SpecEnv) evalCall(n *ECall) SVal {
 		d, ok := ev.Data[key]
 		if !ok {
 			switch key {
-			case "inputLen":
+			case "inputLen", "origin":
 				d = o.ConstI(tyInt, -1)
 			case "digit":
 				d = o.ConstI(tyByte, 0)
@@ -961,7 +968,15 @@ func (e *SpecEnv) evalCall(n *ECall) SVal {
 		inside := o.And(o.Eq(r, sl.Reg), o.IdxLe(o.IdxAdd(sl.Off, lo), i), o.IdxLt(i, o.IdxAdd(sl.Off, sl.Cap)))
 		body := o.Implies(o.And(o.Le(o.Int(0), r), o.Lt(r, e.allocPre), o.Not(inside)), o.Eq(o.Select(o.Select(e.st().H, r), i), o.Select(o.Select(e.pre.H, r), i)))
 		return SVal{V: o.Forall([]*Term{r, i}, body), T: typBool}
-	case "decPos", "decDepth", "decAtKey", "decInObj", "decNTok", "decGarbage", "tokKind", "tokText", "decDoc":
+	case "lowerIs":
+		// strings.ToLower(s) == lit, for a lower-case ASCII literal
+		v := arg(0)
+		lit, ok := n.Args[1].(*EStr)
+		if !ok {
+			sfail("lowerIs(s, \"literal\")")
+		}
+		return SVal{V: e.x.lowerEqLit(e.x.seqView(e.st(), v.V), lit.S), T: typBool}
+	case "decPos", "decDepth", "decAtKey", "decInObj", "decNTok", "decGarbage", "tokKind", "tokText", "decDoc", "tokIsKey", "tokNKeys", "tokIsClose":
 		// ghost state / token stream of a json decoder value
 		v := arg(0)
 		_, d := e.x.decoderOf(e.st(), v.V)
@@ -980,12 +995,18 @@ func (e *SpecEnv) evalCall(n *ECall) SVal {
 			return SVal{V: e.x.jsonGarbage(d.View), T: typBool}
 		case "decDoc":
 			return SVal{V: d.View, T: typString}
+		case "tokNKeys":
+			return SVal{V: e.x.tokNKeys(d.View, e.asInt(arg(1), tyInt)), T: typInt}
+		case "tokIsKey":
+			return SVal{V: e.x.tokIsKey(d.View, e.asInt(arg(1), tyInt)), T: typBool}
+		case "tokIsClose":
+			return SVal{V: e.x.tokIsClose(d.View, e.asInt(arg(1), tyInt)), T: typBool}
 		case "tokKind":
 			return SVal{V: e.x.tokKind(d.View, e.asInt(arg(1), tyInt)), T: typInt}
 		case "tokText":
 			return SVal{V: e.x.tokText(d.View, e.asInt(arg(1), tyInt)), T: typString}
 		}
-	case "docNTok", "docGarbage", "docKind", "docText":
+	case "docNTok", "docGarbage", "docKind", "docText", "docIsKey", "docNKeys", "docIsClose":
 		// the token stream of a text (as encoding/json would deliver it)
 		v := arg(0)
 		view := e.x.seqView(e.st(), v.V)
@@ -998,6 +1019,12 @@ func (e *SpecEnv) evalCall(n *ECall) SVal {
 			return SVal{V: e.x.tokKind(view, e.asInt(arg(1), tyInt)), T: typInt}
 		case "docText":
 			return SVal{V: e.x.tokText(view, e.asInt(arg(1), tyInt)), T: typString}
+		case "docIsKey":
+			return SVal{V: e.x.tokIsKey(view, e.asInt(arg(1), tyInt)), T: typBool}
+		case "docIsClose":
+			return SVal{V: e.x.tokIsClose(view, e.asInt(arg(1), tyInt)), T: typBool}
+		case "docNKeys":
+			return SVal{V: e.x.tokNKeys(view, e.asInt(arg(1), tyInt)), T: typInt}
 		}
 	case "rangePos":
 		// the byte position of the (single) string iterator of the function
@@ -1240,6 +1267,9 @@ func (e *SpecEnv) callPure(pk *Pkg, pf *PureFunc, args []Expr) SVal {
 	if e.depth > 40 {
 		sfail("pure func %s: recursion too deep", pf.Name)
 	}
+	if pf.Rec {
+		return e.callRec(pk, pf, args)
+	}
 	sub := &SpecEnv{x: e.x, pk: pk, vars: map[string]SVal{}, pre: e.pre, post: e.post, inOld: e.inOld, tparams: e.tparams, depth: e.depth + 1, allocPre: e.allocPre}
 	for i, p := range pf.Params {
 		v := e.eval(args[i])
@@ -1277,6 +1307,85 @@ func (e *SpecEnv) callPure(pk *Pkg, pf *PureFunc, args []Expr) SVal {
 	}
 	res.T = rt
 	return res
+}
+
+// callRec: application of a recursive specification function. The function is an SMT function defined by its
+// equation (define-funs-rec); a `bytes` parameter is passed as (array, offset, length), other parameters and the
+// result are mathematical integers or booleans.
+func (e *SpecEnv) callRec(pk *Pkg, pf *PureFunc, args []Expr) SVal {
+	o := e.o()
+	if o.M.BV {
+		sfail("rec func %s: only available in int mode", pf.Name)
+	}
+	name := "rec." + pk.Name + "." + pf.Name
+	rt := e.lookupType(pf.Result)
+	if rt == nil {
+		sfail("rec func %s: unknown result type %s", pf.Name, pf.Result)
+	}
+	resSort := IntSort
+	if rt == typBool {
+		resSort = BoolSort
+	}
+	var actual []*Term
+	for i, p := range pf.Params {
+		v := e.eval(args[i])
+		if p.Type == "bytes" {
+			sv := e.x.seqView(e.st(), v.V)
+			actual = append(actual, sv.Arr, sv.Off, sv.Len)
+			continue
+		}
+		if v.C != nil {
+			actual = append(actual, o.IntBig(v.C))
+			continue
+		}
+		t, ok := v.V.(*Term)
+		if !ok || (t.Sort != IntSort && t.Sort != BoolSort) {
+			sfail("rec func %s: argument %d is not an integer or boolean", pf.Name, i)
+		}
+		actual = append(actual, t)
+	}
+	app := o.UF(name, resSort, actual...)
+	if e.x.recDefined == nil {
+		e.x.recDefined = map[string]bool{}
+	}
+	if !e.x.recDefined[name] {
+		e.x.recDefined[name] = true
+		sub := &SpecEnv{x: e.x, pk: pk, vars: map[string]SVal{}, pre: e.pre, post: e.post, tparams: e.tparams, depth: e.depth + 1, allocPre: e.allocPre}
+		var params []*Term
+		for _, p := range pf.Params {
+			if p.Type == "bytes" {
+				a, off, l := o.BoundVar(p.Name+".arr", o.ByteArr()), o.BoundVar(p.Name+".off", IntSort), o.BoundVar(p.Name+".len", IntSort)
+				params = append(params, a, off, l)
+				sub.vars[p.Name] = SVal{V: StrVal{Arr: a, Off: off, Len: l}, T: typString}
+				continue
+			}
+			pt := sub.lookupType(p.Type)
+			if pt == nil {
+				sfail("rec func %s: unknown parameter type %s", pf.Name, p.Type)
+			}
+			srt := IntSort
+			if pt == typBool {
+				srt = BoolSort
+			}
+			b := o.BoundVar(p.Name, srt)
+			params = append(params, b)
+			sub.vars[p.Name] = SVal{V: b, T: pt}
+		}
+		e.x.quantDepth++
+		body := sub.eval(pf.Body)
+		e.x.quantDepth--
+		var bt *Term
+		if body.C != nil {
+			bt = o.IntBig(body.C)
+		} else {
+			bt, _ = body.V.(*Term)
+		}
+		if bt == nil || bt.Sort != resSort {
+			sfail("rec func %s: body is not of the declared result sort", pf.Name)
+		}
+		o.DefineRec(name, params, bt)
+	}
+	return SVal{V: app, T: rt}
 }
 
 func (e *SpecEnv) convert(v SVal, t types.Type) SVal {
